@@ -894,17 +894,20 @@ func cmdReplay(args []string) int {
 				r.Drift = append(r.Drift, map[string]any{"obs": "concretise", "detail": e.err, "src": firstN(e.src, 200)})
 				r.Mismatch = append(r.Mismatch, map[string]any{"obs": "machinery", "detail": "the generated node could not be concretised: " + e.err})
 				out.Write(r)
+			out.Close() // flush: a fatal crash is attributed to the first unanswered case
 				return nil
 			}
 			// the concretiser did what the model thinks: the parsed statement projects to the node TLC generated
 			if d := diffPath(norm(b.Sem), norm(pStmt(e.stmt)), ""); d != "" {
 				r.Mismatch = append(r.Mismatch, map[string]any{"obs": "machinery", "detail": "parsed statement differs from the generated node at " + d})
 				out.Write(r)
+			out.Close() // flush: a fatal crash is attributed to the first unanswered case
 				return nil
 			}
 			if e.err != "" {
 				r.Mismatch = append(r.Mismatch, map[string]any{"obs": "roundtrip", "why": "encode-failed", "detail": e.err})
 				out.Write(r)
+			out.Close() // flush: a fatal crash is attributed to the first unanswered case
 				return nil
 			}
 			// mechanism: the frame sequence the model predicts
@@ -959,6 +962,7 @@ func cmdReplay(args []string) int {
 				r.Drift = append(r.Drift, map[string]any{"obs": "roundtrip-prediction", "expected": b.Rt, "got": len(r.Mismatch) == 0})
 			}
 			out.Write(r)
+			out.Close() // flush: a fatal crash is attributed to the first unanswered case
 			return nil
 		}
 		// ---- mutation
@@ -973,12 +977,14 @@ func cmdReplay(args []string) int {
 		if e.bin == nil || !e.ok {
 			r.Drift = append(r.Drift, map[string]any{"obs": "mutation-base", "detail": "base encoding not available / not framed: " + e.err})
 			out.Write(r)
+			out.Close() // flush: a fatal crash is attributed to the first unanswered case
 			return nil
 		}
 		mb, atType, okm := applyMut(e, b)
 		if !okm {
 			r.Drift = append(r.Drift, map[string]any{"obs": "mutation-not-applicable"})
 			out.Write(r)
+			out.Close() // flush: a fatal crash is attributed to the first unanswered case
 			return nil
 		}
 		r.Class = map[string]any{"case": "mut", "kind": kOf(b.Node), "mut": b.Mut.M, "at_type": atType, "sub_type": b.Mut.T, "part": b.Mut.Part}
@@ -995,6 +1001,7 @@ func cmdReplay(args []string) int {
 			r.Drift = append(r.Drift, map[string]any{"obs": "decode-outcome", "expected": b.Dec, "got": d.res})
 		}
 		out.Write(r)
+			out.Close() // flush: a fatal crash is attributed to the first unanswered case
 		return nil
 	})
 	if err != nil {
@@ -1172,6 +1179,7 @@ func cmdBytes(args []string) int {
 		r.Input = map[string]any{"kind": "bytes", "node": short(b.Sem), "inputs": len(inputs)}
 		r.Observed = map[string]any{"inputs": len(inputs), "outcomes": cnt}
 		out.Write(r)
+			out.Close() // flush: a fatal crash is attributed to the first unanswered case
 		return nil
 	})
 	if err != nil {
